@@ -42,7 +42,7 @@ def replay_chunk(groups):
     with Scratch("c05-") as d:
         for gi, idxs in enumerate(groups):
             c0 = cases[idxs[0]]
-            ctx = ex.make_ctx(d, c0["lib"], c0["need"], PREBODY, f"g{gi}")
+            ctx = ex.make_ctx(d, c0["lib"], c0["need"], PREBODY, f"g{gi}", enwikt=c0.get("enw", True))
             try:
                 for idx in idxs:
                     c = cases[idx]
